@@ -1051,3 +1051,75 @@ func ruleC03OneRowOnlyUngrouped(c *Ctx) {
 		c.Unknown("c03.one-row-only-ungrouped", "ExecSelect", c.P.Pos(es.Pos()), "anchor lost: no whole-table projection call")
 	}
 }
+
+func init() { register("C03", ruleC03GroupRowAddressable) }
+
+// ruleC03GroupRowAddressable: the grouping columns can be read back from the group's row.
+func ruleC03GroupRowAddressable(c *Ctx) {
+	c.Doc("c03.group-row-addressable", "group emission (ExecGroupBy): each grouping value is stored into the group's row through SetPath(row, name, value) with (name, value) ranging over the group's key map — never under the flat dotted name, which no reader finds (every reader resolves `a.g` as the path a -> g); SetPath splits an unquoted name at the dots, descends creating maps and stores the value under the last part")
+	f := c.groupByFunc()
+	sp := c.P.Func(modPath, "SetPath")
+	if f == nil {
+		c.Unknown("c03.group-row-addressable", "ExecGroupBy", "-", "anchor lost")
+		return
+	}
+	var why []string
+	nSet := 0
+	deepInstrs(f, func(g *ssa.Function, tb *TB, _ *ssa.BasicBlock, in ssa.Instruction) {
+		isKeyMapEntry := func(k, v ssa.Value) bool {
+			kx, ok1 := k.(*ssa.Extract)
+			vx, ok2 := v.(*ssa.Extract)
+			if !ok1 || !ok2 || kx.Tuple != vx.Tuple || kx.Index != 1 || vx.Index != 2 {
+				return false
+			}
+			nx, ok := kx.Tuple.(*ssa.Next)
+			if !ok {
+				return false
+			}
+			// the ranged map is a dereferenced group key (*key), not the row's own key map under construction
+			_, isDeref := nx.Iter.(*ssa.Range).X.(*ssa.UnOp)
+			return isDeref
+		}
+		switch x := in.(type) {
+		case *ssa.MapUpdate:
+			if g == f && isKeyMapEntry(x.Key, x.Value) {
+				why = append(why, "a grouping value is stored under its flat (possibly dotted) name at "+c.P.Pos(x.Pos())+": `GROUP BY a.g` yields rows whose a.g reads as NULL (and HAVING on it drops every group)")
+			}
+		case *ssa.Call:
+			if sp != nil && x.Common().StaticCallee() == sp && len(x.Call.Args) == 3 && isKeyMapEntry(x.Call.Args[1], x.Call.Args[2]) {
+				nSet++
+			}
+		}
+	})
+	if sp == nil {
+		why = append(why, "anchor lost: SetPath")
+	} else {
+		c.Fn("SetPath")
+		// shape of SetPath
+		split, lastStore, makes := false, false, false
+		allInstrs(sp, func(_ *ssa.BasicBlock, in ssa.Instruction) {
+			switch x := in.(type) {
+			case *ssa.Call:
+				if a, ok := callArgs(NewTB().Of(x), "strings.Split"); ok && len(a) == 2 && a[0].Op == "param" && a[1].Name == `"."` {
+					split = true
+				}
+			case *ssa.MakeMap:
+				makes = true
+			case *ssa.MapUpdate:
+				kt := NewTB().Of(x.Key)
+				if kt.Op == "index" && strings.Contains(kt.String(), "strings.Split(") && strings.Contains(kt.String(), "builtin:len(") {
+					if p, isP := x.Value.(*ssa.Parameter); isP && p == sp.Params[2] {
+						lastStore = true
+					}
+				}
+			}
+		})
+		if !split || !lastStore || !makes {
+			why = append(why, fmt.Sprintf("SetPath does not store the value under the last part of the dotted name along a created path (split=%v, store at last part=%v, creates maps=%v)", split, lastStore, makes))
+		}
+	}
+	if nSet == 0 && len(why) == 0 {
+		why = append(why, "the grouping values are not stored through SetPath")
+	}
+	c.Check(len(why) == 0, "c03.group-row-addressable", "ExecGroupBy", c.P.Pos(f.Pos()), "grouping values stored along the path their names are read through", strings.Join(uniq(why), "; "))
+}
